@@ -571,7 +571,7 @@ func scenarioConstructedMessage() {
 	}
 	sysBuf := byteBuf(sys[:]) // passed by value: scribbling on the caller's array is a caller write
 	sysCV := s.newBuf(sysBuf)
-	o := s.addSubject(msgSubject{m}, "construct:"+strings.Join(append(names, fmt.Sprint(sysCV)), ","))
+	o := s.addSubject(msgSubject{m}, "constructm:"+strings.Join(append(names, fmt.Sprint(sysCV)), ","))
 	for k, b := range bufs {
 		s.scribble(cvs[k], b, 2)
 	}
